@@ -79,7 +79,7 @@ fn stamped(log: &[Frame], call: &Scru128Id) -> Vec<Frame> {
 }
 
 fn wait_terminal(w: &World, name: &str, call: &Scru128Id) -> Option<Frame> {
-    w.wait(|f| (f.topic == format!("{}.complete", name) || f.topic == format!("{}.error", name)) && meta_str(f, "frame_id") == Some(call.to_string()), 30.0)
+    w.wait(|f| (f.topic == format!("{}.complete", name) || f.topic == format!("{}.error", name)) && meta_str(f, "frame_id") == Some(call.to_string()), 8.0)
 }
 
 pub fn run_program(p: &Program) -> (Vec<F>, String) {
